@@ -446,6 +446,14 @@ def install(ctx):
                 return Enum('Result', z3.If(inr, 0, 1), {0: (S(v.t, tgt),), 1: (Opaque('TryFromIntError'),)})
         if hasattr(v, 'try_into'):
             return v.try_into(ip, dt)
+        inner = deref_all(v)
+        if inner is not v:
+            # <[u8; N]>::try_from(&[u8]) on what a Vec<u8> dereferences to: same as Vec::try_into
+            h = ip.ctx.models.table.get('<Vec as TryInto>::try_into')
+            if h is not None:
+                r = h(ip, pc, [inner], dt)
+                if r is not NotImplemented:
+                    return r
         raise Unsupported('try_from %r -> %s' % (v, dt))
 
     @M.reg('<From>::from', '<Into>::into')
